@@ -170,6 +170,7 @@ structure Res where
   cl : Cl
   cbs : List Cb
   out : List SMsg
+  deriving DecidableEq, Repr
 
 def closeCl (cl : Cl) : Cl := { cl with isOpen := false }
 
@@ -177,21 +178,36 @@ def closeCl (cl : Cl) : Cl := { cl with isOpen := false }
 def popFormats (flags : Nat) : Nat :=
   ((List.range nFormatBits).filter (fun i => flags.testBit i)).length
 
-/-- `rfbProcessExtendedServerCutTextData`: `(TRUE/FALSE, callbacks made)` -/
+/-- one `[size BE32][bytes]` record read with two `inflate` calls (`avail_out = 4`, then
+`avail_out = size`), as both libraries do; `none` = the caller fails.
+* first call must return `Z_OK`; if it filled fewer than four bytes `size` is whatever the variable
+  held (`env.garbage`) — the second call then cannot make progress and the record is refused
+  whatever that value is (`Lemmas.readRecord_sound`);
+* `size > limit` is refused before anything is allocated;
+* second call must return `Z_OK` or `Z_STREAM_END` AND have filled all `size` bytes
+  (server: fixes/C18-provide-size-check.diff; client: the `total_out` comparison). -/
+def readRecord (env : Env) (limit : Nat) (st : ZState) : Option (Bytes × ZState) :=
+  let r1 := zcall st 4
+  if r1.rc != .ok then none else
+  let size := if r1.bytes.length = 4 then rd32 r1.bytes else env.garbage
+  if size > limit then none else
+  let r2 := zcall r1.st size
+  if r2.rc != .ok && r2.rc != .streamEnd then none else
+  if r2.bytes.length != size then none else
+  some (r2.bytes, r2.st)
+
+/-- `rfbProcessExtendedServerCutTextData`: `(TRUE/FALSE, callbacks made)`; one record per format
+bit that is set, only the text record (bit 0) reaches the application -/
 def provLoop (env : Env) (cfg : Cfg) (viewOnly : Bool) (flags : Nat) :
     List Nat → ZState → List Cb → Bool × List Cb
   | [], _, cbs => (true, cbs)
   | i :: is, st, cbs =>
     if !flags.testBit i then provLoop env cfg viewOnly flags is st cbs else
-    let r1 := zcall st 4
-    if r1.rc != .ok then (false, cbs) else
-    let size := if r1.bytes.length = 4 then rd32 r1.bytes else env.garbage
-    if size > srvRecLimit then (false, cbs) else
-    let r2 := zcall r1.st size
-    if r2.rc != .ok && r2.rc != .streamEnd then (false, cbs) else
-    if r2.bytes.length != size then (false, cbs) else          -- fixes/C18-provide-size-check.diff
-    let cbs' := if i == 0 && !viewOnly && cfg.cb8 then cbs ++ [Cb.utf8 r2.bytes] else cbs
-    provLoop env cfg viewOnly flags is r2.st cbs'
+    match readRecord env srvRecLimit st with
+    | none => (false, cbs)
+    | some (d, st') =>
+      provLoop env cfg viewOnly flags is st'
+        (if i == 0 && !viewOnly && cfg.cb8 then cbs ++ [Cb.utf8 d] else cbs)
 
 /-- the extended branch of the ClientCutText handler; `body` is the `msg.cct.length` bytes read -/
 def handleExt (Z : Zlib) (env : Env) (cfg : Cfg) (cl : Cl) (body : Bytes) : Res :=
@@ -269,6 +285,16 @@ structure FeedRes where
   out : List SMsg
   unmodelled : Bool
 
+/-- dispatch on the message type byte (only the two message types that touch the clipboard state
+are modelled) -/
+def stepMsg (Z : Zlib) (env : Env) (cfg : Cfg) (cl : Cl) (input : Bytes) : Step :=
+  match input with
+  | [] => .unmodelled
+  | t :: _ =>
+    if t.toNat = msgClientCutText then stepCut Z env cfg cl input
+    else if t.toNat = msgSetEncodings then stepEnc cfg cl input
+    else .unmodelled
+
 /-- everything the server does with the bytes `input` arriving on one NORMAL connection (one
 message per `rfbProcessClientMessage`, repeated until the data is used up or the client is closed) -/
 def feed (Z : Zlib) (env : Env) (cfg : Cfg) (cl : Cl) (input : Bytes) : FeedRes :=
@@ -276,11 +302,7 @@ def feed (Z : Zlib) (env : Env) (cfg : Cfg) (cl : Cl) (input : Bytes) : FeedRes 
   | [] => ⟨cl, [], [], false⟩
   | t :: rest =>
     if !cl.isOpen then ⟨cl, [], [], false⟩ else
-    let st :=
-      if t.toNat = msgClientCutText then stepCut Z env cfg cl (t :: rest)
-      else if t.toNat = msgSetEncodings then stepEnc cfg cl (t :: rest)
-      else Step.unmodelled
-    match st with
+    match stepMsg Z env cfg cl (t :: rest) with
     | .next cl' cbs out k =>
       let r := feed Z env cfg cl' ((t :: rest).drop (max k 1))
       ⟨r.cl, cbs ++ r.cbs, out ++ r.out, r.unmodelled⟩
@@ -354,19 +376,20 @@ def cliExt (Z : Zlib) (env : Env) (c : LC) (body : Bytes) : Option (LC × List C
   else if !flags.testBit bProvide then some (c, [])
   else if flags.testBit bCaps then some ({ c with caps := c.caps ||| 2 ^ bText }, [])
   else
-    let r1 := zcall (ZState.init Z (body.drop 4)) 4
-    if r1.rc != .ok then none else
-    let size := if r1.bytes.length = 4 then rd32 r1.bytes else env.garbage
-    if size > cliRecLimit then none else
-    let r2 := zcall r1.st size
-    if r2.rc != .ok && r2.rc != .streamEnd then none else
-    if r2.bytes.length != size then none else
-    some (c, [CCb.utf8 r2.bytes])
+    match readRecord env cliRecLimit (ZState.init Z (body.drop 4)) with
+    | none => none
+    | some (d, _) => some (c, [CCb.utf8 d])
 
 inductive CStep where
   | next (c : LC) (cbs : List CCb) (consumed : Nat)
   | drop
   | unmodelled
+
+/-- the caller of `rfbClientProcessExtServerCutText`: FALSE drops the connection -/
+def cliExtStep (Z : Zlib) (env : Env) (c : LC) (body : Bytes) (consumed : Nat) : CStep :=
+  match cliExt Z env c body with
+  | none => .drop
+  | some (c', cbs) => .next c' cbs consumed
 
 /-- ServerCutText at the head of `input`; a stream that ends inside the message is a failed read -/
 def cliStepCut (Z : Zlib) (env : Env) (c : LC) (input : Bytes) : CStep :=
@@ -377,10 +400,7 @@ def cliStepCut (Z : Zlib) (env : Env) (c : LC) (input : Bytes) : CStep :=
   if n > cliMsgLimit then .drop else
   let body := (input.drop szServerCutTextMsg).take n
   if body.length < n then .drop else
-  if neg && c.hasU8 then
-    match cliExt Z env c body with
-    | none => .drop
-    | some (c', cbs) => .next c' cbs (szServerCutTextMsg + n)
+  if neg && c.hasU8 then cliExtStep Z env c body (szServerCutTextMsg + n)
   else if c.hasL1 then .next c [CCb.latin1 body] (szServerCutTextMsg + n)
   else .next c [] (szServerCutTextMsg + n)
 
@@ -390,16 +410,20 @@ structure CFeedRes where
   dropped : Bool
   unmodelled : Bool
 
+def cliStepMsg (Z : Zlib) (env : Env) (c : LC) (input : Bytes) : CStep :=
+  match input with
+  | [] => .unmodelled
+  | t :: _ =>
+    if t.toNat = msgServerCutText then cliStepCut Z env c input
+    else if t.toNat = msgBell then CStep.next c [] 1
+    else CStep.unmodelled
+
 /-- the client's message loop over the bytes `input` (only ServerCutText and Bell are modelled) -/
 def cliFeed (Z : Zlib) (env : Env) (c : LC) (input : Bytes) : CFeedRes :=
   match input with
   | [] => ⟨c, [], false, false⟩
   | t :: rest =>
-    let st :=
-      if t.toNat = msgServerCutText then cliStepCut Z env c (t :: rest)
-      else if t.toNat = msgBell then CStep.next c [] 1
-      else CStep.unmodelled
-    match st with
+    match cliStepMsg Z env c (t :: rest) with
     | .next c' cbs k =>
       let r := cliFeed Z env c' ((t :: rest).drop (max k 1))
       ⟨r.c, cbs ++ r.cbs, r.dropped, r.unmodelled⟩
